@@ -380,11 +380,14 @@ def gen_dyn(ctx, cases):
 def gen_history(rng, count):
     """a history of calls on ONE table object: [['start'], ['next', g, how], ['close', g, how], ['num'], ['get', n],
     ['iter']].  g = generator number in creation order; how = 'next' | 'for' (resumed by next(g) or by a for loop
-    left with break) resp. 'close' | 'del' (g.close() or the last reference dropped).  Half of the histories begin
-    with a walk that is abandoned after 0..3 items, then ask the table; count only aims the indices."""
+    left with break) resp. 'close' | 'del' (g.close() or the last reference dropped).  A quarter of the histories
+    first fill the RELR memo; half then make a walk that is suspended or abandoned after 0..3 items; then come
+    random calls.  count only aims the indices."""
     h = []
     live = []          # generators the harness still holds
     ngen = 0
+    if rng.random() < 0.25:                # the memo (RELR) filled before anything else
+        h.append(rng.choice([['num'], ['get', rng.randrange(count) if count else 0]]))
     if rng.random() < 0.5:
         h.append(['start'])
         live.append(0)
